@@ -88,6 +88,11 @@ def enum_check(prop, tier, names, rule, assumptions, chunk=None, system_tasks=No
 
         tot = dict(executions=0, states=0, transitions=0, scenarios=0)
         caps = []
+        if tier == "thorough":
+            os.environ.setdefault("JMC_FREE_AT_POLL", "1")
+            for t in system_tasks:
+                t.setdefault("time_cap", 1200.0)
+                t["deadline_at"] = time.time() + float(os.environ.get("JMC_RUN_BUDGET", "2700"))
         for r in run_pool(run_task, system_tasks):
             tot["scenarios"] += 1
             if r["error"]:
